@@ -2,7 +2,8 @@
 // pipeline-overridable constants (property C14).
 //
 //	ovrdrive resolve {"id":..,"src":WGSL,"data":{"consts":[[key,"<float64 bits, decimal>"]...],
-//	                                             "paths":["po","glsl","msl"]}}
+//	                                             "paths":["po","backends","glsl","msl","canon"],
+//	                                             "subst": WGSL of the substituted-constant reference (form family)}}
 //
 // Result (all floats as bit patterns; no message strings are compared by the check):
 //
@@ -14,6 +15,9 @@
 //	          whether the reflection dump of the caller's module is unchanged
 //	glsl/msl  Compile with the PipelineConstants option: error flag / text, and whether
 //	          the caller's module is unchanged
+//	subst     (when data.subst is given) the reference program through every back end, and the
+//	          comparison of its handle-free canonical function bodies (canon.go) with those of
+//	          the module ProcessOverrides produced
 package main
 
 import (
@@ -226,7 +230,7 @@ func resolvedJSON(m *ir.Module, nOrigConsts int) []any {
 // statement classes of the module's function bodies whose storage
 // CloneModuleForOverrides may or may not share with the caller's module
 func stmtClasses(m *ir.Module) map[string]int {
-	c := map[string]int{"nested": 0, "call_args": 0, "ptr": 0}
+	c := map[string]int{"nested": 0, "call_args": 0, "ptr": 0, "expr_ptr": 0}
 	var walk func(b ir.Block, top bool)
 	walk = func(b ir.Block, top bool) {
 		if !top {
@@ -262,6 +266,9 @@ func stmtClasses(m *ir.Module) map[string]int {
 				if k.Result != nil {
 					c["ptr"]++
 				}
+				if x, ok := k.Fun.(ir.AtomicExchange); ok && x.Compare != nil {
+					c["ptr"]++
+				}
 			case ir.StmtImageStore:
 				if k.ArrayIndex != nil {
 					c["ptr"]++
@@ -269,11 +276,33 @@ func stmtClasses(m *ir.Module) map[string]int {
 			}
 		}
 	}
+	// pointees of *ExpressionHandle fields of EXPRESSIONS (the arena is copied by value,
+	// the pointees stay shared with the caller's module)
+	exprs := func(fn *ir.Function) {
+		for i := range fn.Expressions {
+			switch k := fn.Expressions[i].Kind.(type) {
+			case ir.ExprImageSample:
+				if k.ArrayIndex != nil || k.Offset != nil || k.DepthRef != nil {
+					c["expr_ptr"]++
+				}
+			case ir.ExprImageLoad:
+				if k.ArrayIndex != nil || k.Sample != nil || k.Level != nil {
+					c["expr_ptr"]++
+				}
+			case ir.ExprImageQuery:
+				if q, ok := k.Query.(ir.ImageQuerySize); ok && q.Level != nil {
+					c["expr_ptr"]++
+				}
+			}
+		}
+	}
 	for i := range m.EntryPoints {
 		walk(m.EntryPoints[i].Function.Body, true)
+		exprs(&m.EntryPoints[i].Function)
 	}
 	for i := range m.Functions {
 		walk(m.Functions[i].Body, true)
+		exprs(&m.Functions[i])
 	}
 	return c
 }
@@ -465,6 +494,7 @@ func doResolve(j *job, res map[string]any) {
 		"named": namedJSON(mod), "stmt_classes": stmtClasses(mod),
 	}
 
+	var poCanon any
 	if wantsPath(j, "po") {
 		po := map[string]any{}
 		withFresh(src, po, func(m *ir.Module) {
@@ -482,7 +512,10 @@ func doResolve(j *job, res map[string]any) {
 			po["named"] = namedJSON(clone)
 			nOrigConsts = 1 << 30
 			if wantsPath(j, "canon") {
-				po["canon"] = canonModule(clone)
+				poCanon = canonModule(clone)
+				if wantsPath(j, "canon-dump") {
+					po["canon"] = poCanon
+				}
 			}
 			if wantsPath(j, "backends") {
 				b := map[string]any{}
@@ -501,7 +534,13 @@ func doResolve(j *job, res map[string]any) {
 			sr["stage"] = sstage
 			sr["err"] = serr.Error()
 		} else {
-			sr["canon"] = canonModule(smod)
+			sc := canonModule(smod)
+			if wantsPath(j, "canon-dump") {
+				sr["canon"] = sc
+			}
+			if poCanon != nil {
+				sr["canon_vs_po"] = compareCanon(sc, poCanon)
+			}
 			b := map[string]any{}
 			compileAll(smod, b)
 			sr["backends"] = b
